@@ -75,6 +75,34 @@ def strip_annotations(tree):
                     count += 1
         elif isinstance(node, ast.Lambda):
             pass
+    # logging calls (logging.debug(..), <module-level logger>.info(..)) are diagnostics, not behaviour
+    loggers = {"logging"} if any(isinstance(st, ast.Import) and any(al.name == "logging" and al.asname is None for al in st.names)
+                                 for st in tree.body) else set()
+    for st in tree.body:
+        if isinstance(st, ast.Assign) and len(st.targets) == 1 and isinstance(st.targets[0], ast.Name) \
+                and isinstance(st.value, ast.Call) and ast.unparse(st.value.func) in ("logging.getLogger", "getLogger"):
+            loggers.add(st.targets[0].id)
+    if loggers:
+        LEVELS = ("debug", "info", "warning", "error", "exception", "critical", "log")
+        for node in ast.walk(tree):
+            for fld in ("body", "orelse", "finalbody"):
+                blk = getattr(node, fld, None)
+                if not (isinstance(blk, list) and blk and isinstance(blk[0], ast.stmt)):
+                    continue
+                k = 0
+                while k < len(blk):
+                    st = blk[k]
+                    if isinstance(st, ast.Expr) and isinstance(st.value, ast.Call) and isinstance(st.value.func, ast.Attribute) \
+                            and st.value.func.attr in LEVELS and isinstance(st.value.func.value, ast.Name) \
+                            and st.value.func.value.id in loggers and not any(
+                                isinstance(x, (ast.Call, ast.Yield, ast.YieldFrom, ast.Await, ast.NamedExpr))
+                                for a in list(st.value.args) + [kw.value for kw in st.value.keywords] for x in ast.walk(a)):
+                        count += 1
+                        if len(blk) > 1:
+                            del blk[k]
+                            continue
+                        blk[k] = ast.copy_location(ast.Pass(), st)
+                    k += 1
     if count:
         ast.fix_missing_locations(tree)
     return count
